@@ -173,11 +173,11 @@ func (t *Tr) addObl(kind, suffix string, pos token.Pos, reach, goal Term, desc s
 func (t *Tr) safety() bool { return t.ct != nil && t.ct.Safety }
 
 func (t *Tr) safetyObl(kind string, pos token.Pos, goal Term, desc string) {
-	if !t.safety() {
-		return
+	if t.safety() {
+		t.addObl(kind, "", pos, t.reach[t.curBlk], goal, desc)
 	}
-	t.addObl(kind, "", pos, t.reach[t.curBlk], goal, desc)
-	// execution continues past this instruction only if it did not panic
+	// execution continues past this instruction only if it did not panic (postconditions speak about normal
+	// return; without a `safety` clause the absence of the panic is not claimed, only not contradicted)
 	t.c.assert(implies(t.reach[t.curBlk], goal))
 }
 
